@@ -828,7 +828,7 @@ func c11DeathClass(d c11Death, cfg *c11Cfg) string {
 	case d.Kind == "nil-deref" && cfg != nil && cfg.Trigger == "onchange" && hasLog &&
 		(strings.HasPrefix(d.Frame, "jobs.(*wrappedSink).") || strings.HasPrefix(d.Frame, "jobs.(*wrappedTransform).")):
 		return "died-onchange+log-handler-not-initialised"
-	case cfg != nil && cfg.Transform == "js3" && hasLog && c11HasFrame(d, "jobs.(*wrappedTransform).transformEntities") &&
+	case cfg != nil && (cfg.Transform == "js3" || cfg.Transform == "js5") && hasLog && c11HasFrame(d, "jobs.(*wrappedTransform).transformEntities") &&
 		c11HasFrame(d, "jobs.(*IncrementalPipeline).sync.func"):
 		// parallel workers of the incremental pipeline share one JS runtime when the transform is wrapped
 		return "died-js-parallelism+log-handler-shared-runtime"
@@ -957,4 +957,199 @@ func c11RunIntervals(runs []c11Run) []c11Interval {
 		ivs = append(ivs, c11Interval{Key: r.ID, Typ: t, Start: r.SeqBorrow, End: r.SeqReturn, Src: "raffle"})
 	}
 	return ivs
+}
+
+// ---------------------------------------------------------------- state of a run that does not end
+
+// c11G is one goroutine of a full goroutine dump (runtime.Stack(all): the world is stopped
+// while it is taken, so the dump is one consistent state of the process).
+type c11G struct {
+	ID        int64    `json:"id"`
+	State     string   `json:"state"`
+	Funcs     []string `json:"funcs"` // innermost first, without arguments
+	CreatedBy string   `json:"createdBy"`
+	Parent    int64    `json:"parent"` // "created by ... in goroutine N"
+}
+
+func c11DumpAll() string {
+	n := 1 << 20
+	for {
+		buf := make([]byte, n)
+		m := runtime.Stack(buf, true)
+		if m < n || n >= 1<<27 {
+			return string(buf[:m])
+		}
+		n *= 2
+	}
+}
+
+func c11ParseGoroutines(dump string) map[int64]*c11G {
+	gs := map[int64]*c11G{}
+	var cur *c11G
+	for _, l := range strings.Split(dump, "\n") {
+		switch {
+		case strings.HasPrefix(l, "goroutine ") && strings.HasSuffix(l, ":"):
+			rest := strings.TrimPrefix(l, "goroutine ")
+			i := strings.IndexByte(rest, ' ')
+			if i < 0 {
+				cur = nil
+				continue
+			}
+			id, err := strconv.ParseInt(rest[:i], 10, 64)
+			if err != nil {
+				cur = nil
+				continue
+			}
+			st := strings.Trim(rest[i+1:], "[]:")
+			if j := strings.IndexByte(st, ','); j >= 0 {
+				st = st[:j] // drop ", 2 minutes" / ", locked to thread"
+			}
+			cur = &c11G{ID: id, State: st}
+			gs[id] = cur
+		case cur == nil || l == "" || strings.HasPrefix(l, "\t"):
+		case strings.HasPrefix(l, "created by "):
+			cb := strings.TrimPrefix(l, "created by ")
+			if k := strings.Index(cb, " in goroutine "); k >= 0 {
+				cur.Parent, _ = strconv.ParseInt(strings.TrimSpace(cb[k+len(" in goroutine "):]), 10, 64)
+				cb = cb[:k]
+			}
+			cur.CreatedBy = cb
+		default:
+			f := l
+			if k := strings.LastIndex(f, "("); k > 0 {
+				f = f[:k]
+			}
+			cur.Funcs = append(cur.Funcs, f)
+		}
+	}
+	return gs
+}
+
+// c11Parked describes a run whose goroutine can never continue, decided from the state of
+// the process alone (no duration enters the decision).
+type c11Parked struct {
+	Kind     string `json:"kind"` // waitgroup-without-workers | chan-without-counterpart
+	Run      c11G   `json:"runGoroutine"`
+	Children int    `json:"liveGoroutinesCreatedByTheRun"`
+	WaitIn   string `json:"blockedIn"` // pipeline function that executes the blocking operation
+}
+
+const c11JobsPkg = "github.com/mimiro-io/datahub/internal/jobs."
+
+func c11IsPipelineSync(f string) bool {
+	return strings.HasPrefix(f, c11JobsPkg+"(*IncrementalPipeline).sync") || strings.HasPrefix(f, c11JobsPkg+"(*FullSyncPipeline).sync")
+}
+
+// c11ParkedIn judges one dump: the goroutine that executes the run (gid: the goroutine that
+// took the run slot) is parked in a blocking operation issued directly by the pipeline's sync
+// function (so the source is not being read and the sink is not being written) and no goroutine
+// created by the run's goroutine is alive. For sync.WaitGroup.Wait that is final: the
+// WaitGroup is a local variable of the batch, only the transform workers started by this very
+// goroutine call Done on it, and they do not exist.
+func c11ParkedIn(gs map[int64]*c11G, gid int64) *c11Parked {
+	g := gs[gid]
+	if g == nil || len(g.Funcs) == 0 {
+		return nil
+	}
+	kind, at := "", -1
+	for i, f := range g.Funcs {
+		if f == "sync.(*WaitGroup).Wait" && (strings.HasPrefix(g.State, "semacquire") || strings.HasPrefix(g.State, "sync.WaitGroup.Wait")) {
+			kind, at = "waitgroup-without-workers", i
+			break
+		}
+		if strings.HasPrefix(f, "github.com/") {
+			// first non-runtime frame: a channel operation issued right here?
+			if (g.State == "chan receive" || g.State == "chan send" || g.State == "select (no cases)") && c11IsPipelineSync(f) {
+				kind, at = "chan-without-counterpart", i-1
+			}
+			break
+		}
+	}
+	if kind == "" || at+1 >= len(g.Funcs) || !c11IsPipelineSync(g.Funcs[at+1]) {
+		return nil
+	}
+	children := 0
+	for _, o := range gs {
+		if o.Parent == gid {
+			children++
+		}
+	}
+	if children > 0 {
+		return nil // a goroutine started by the run is alive and may release it
+	}
+	return &c11Parked{Kind: kind, Run: *g, Children: 0, WaitIn: strings.TrimPrefix(g.Funcs[at+1], c11JobsPkg)}
+}
+
+// c11BlockedForever takes two consistent dumps and reports a verdict only when both show the
+// same final state (the second dump excludes the instant at which the last worker has just
+// called Done and the waiter is not yet marked runnable).
+func c11BlockedForever(gid int64) (*c11Parked, string) {
+	d1 := c11DumpAll()
+	p1 := c11ParkedIn(c11ParseGoroutines(d1), gid)
+	if p1 == nil {
+		return nil, ""
+	}
+	time.Sleep(150 * time.Millisecond)
+	d2 := c11DumpAll()
+	p2 := c11ParkedIn(c11ParseGoroutines(d2), gid)
+	if p2 == nil || p2.Kind != p1.Kind || strings.Join(p2.Run.Funcs, ">") != strings.Join(p1.Run.Funcs, ">") {
+		return nil, ""
+	}
+	return p2, c11StackOf(d2, gid)
+}
+
+func c11StackOf(dump string, gid int64) string {
+	h := fmt.Sprintf("goroutine %d [", gid)
+	i := strings.Index(dump, h)
+	if i < 0 {
+		return ""
+	}
+	s := dump[i:]
+	if j := strings.Index(s, "\n\n"); j > 0 {
+		s = s[:j]
+	}
+	return s
+}
+
+// c11JudgeStuck examines the runs that hold a slot without having reported an outcome. For
+// each one whose goroutine is parked for good it reports `run-blocked-forever:<kind>`, then
+// asks the hub to kill the job and, if the run is still listed as running and still parked,
+// reports `kill-ignored:<kind>`. Returns the number of runs judged blocked.
+func c11JudgeStuck(h *c11Hub, viol func(class, msg string, exp, obs any, extra map[string]any)) int {
+	n := 0
+	for _, r := range h.rec.snapshotRuns() {
+		if r.SeqReturn != 0 || r.Outcome != "" {
+			continue
+		}
+		p, stack := c11BlockedForever(r.Gid)
+		if p == nil {
+			continue
+		}
+		n++
+		viol("run-blocked-forever:"+p.Kind,
+			fmt.Sprintf("run of %s is parked in %s (state %q) inside %s and no goroutine started by the run exists that could release it: the run can never end, never stores a result and never gives its slot back",
+				c11nz(r.ID, "?"), p.Run.Funcs[0], p.Run.State, p.WaitIn),
+			"the run ends as success, failure or kill", p, map[string]any{"run": r, "stack": stack})
+		if r.ID == "" {
+			continue
+		}
+		h.sched.KillJob(r.ID)
+		time.Sleep(200 * time.Millisecond)
+		p2, stack2 := c11BlockedForever(r.Gid)
+		listed := false
+		for _, j := range h.sched.GetRunningJobs() {
+			if j.JobID == r.ID {
+				listed = true
+			}
+		}
+		h.rec.mu.Lock()
+		_, stillOpen := h.rec.open[r.Gid]
+		h.rec.mu.Unlock()
+		if p2 != nil && listed && stillOpen {
+			viol("kill-ignored:"+p2.Kind,
+				fmt.Sprintf("KillJob(%s) was issued but the run is still listed by GetRunningJobs and its goroutine is still parked in %s inside %s with nothing left to release it: the run cannot end as killed", r.ID, p2.Run.Funcs[0], p2.WaitIn),
+				"after KillJob the run ends with outcome kill and leaves the running jobs", p2, map[string]any{"run": r, "stack": stack2})
+		}
+	}
+	return n
 }
